@@ -33,7 +33,6 @@ func (P *extPoint) getXY() (x, y *mod.Int) {
 }
 
 func (P *extPoint) String() string {
-	P.normalize()
 	buf, _ := P.MarshalBinary()
 	return hex.EncodeToString(buf)
 }
@@ -43,8 +42,8 @@ func (P *extPoint) MarshalSize() int {
 }
 
 func (P *extPoint) MarshalBinary() ([]byte, error) {
-	P.normalize()
-	return P.c.encodePoint(&P.X, &P.Y), nil
+	x, y := P.affine()
+	return P.c.encodePoint(&x, &y), nil
 }
 
 func (P *extPoint) UnmarshalBinary(b []byte) error {
@@ -112,6 +111,17 @@ func (P *extPoint) EmbedLen() int {
 	return P.c.embedLen()
 }
 
+// affine returns the affine coordinates of P without touching its
+// representation: encoding, printing or reading the data of a point must not
+// write to it (the point may be shared between goroutines for reading).
+func (P *extPoint) affine() (x, y mod.Int) {
+	var zi mod.Int
+	zi.Inv(&P.Z)
+	x.Mul(&P.X, &zi)
+	y.Mul(&P.Y, &zi)
+	return x, y
+}
+
 // Normalize the point's representation to Z=1.
 func (P *extPoint) normalize() {
 	P.Z.Inv(&P.Z)
@@ -143,8 +153,8 @@ func (P *extPoint) Pick(rand cipher.Stream) kyber.Point {
 
 // Extract embedded data from a point group element
 func (P *extPoint) Data() ([]byte, error) {
-	P.normalize()
-	return P.c.data(&P.X, &P.Y)
+	x, y := P.affine()
+	return P.c.data(&x, &y)
 }
 
 // Add two points using optimized extended coordinate addition formulas.
